@@ -1,8 +1,12 @@
 package c04
 
 import (
+	"context"
 	"fmt"
 	"testing"
+	"time"
+
+	"github.com/0chain/common/core/util"
 
 	"github.com/linxGnu/grocksdb"
 
@@ -13,16 +17,23 @@ import (
 
 func TestWitnesses(t *testing.T) {
 	ev.Witness(t, "C04-savechanges-drops-error", func() string {
-		rd := rounds.Round{Version: 1, Txns: []rounds.Txn{{Ops: []mptkit.Op{{Kind: "ins", Path: "00", Val: "01"}}, Merge: true}}}
+		// The failure needs the saving goroutine to report its error and finish before the caller reaches its
+		// select. The caller's select evaluates ctx.Done() first, so a context whose Done() takes a few milliseconds
+		// stands for a caller that was descheduled at that point: both channels are then ready and select picks one
+		// at random.
 		for i := 0; i < 40; i++ {
-			dir := rounds.NewDir()
+			mpt := mptkit.NewTrie(util.NewMemoryNodeDB(), 1, nil)
+			if _, err := mpt.Insert(util.Path("00"), mptkit.Val([]byte{1})); err != nil {
+				return "HARNESS: " + err.Error()
+			}
+			pndb, dir := mptkit.NewPNodeDB()
 			st := grocksdb.StoreFor(dir)
-			st.SetFailOnly(0) // the node batch fails, the dead-node record succeeds
-			root, _, err := rounds.ExecRound(dir, nil, rd)
+			st.SetFailOnly(0) // the node batch fails
+			err := mpt.SaveChanges(slowCtx{context.Background()}, pndb, false)
 			st.ResetFaults()
 			bad := ""
 			if err == nil {
-				if e := rounds.CheckReadable(dir, rounds.Saved{Version: 1, Root: root, Model: map[string][]byte{"00": {1}}}); e != nil {
+				if e := rounds.CheckReadable(dir, rounds.Saved{Version: 1, Root: mpt.GetRoot(), Model: map[string][]byte{"00": {1}}}); e != nil {
 					bad = fmt.Sprintf("attempt %d: the node batch write failed, SaveChanges returned nil, and the saved root is unreadable (%v)", i, e)
 				}
 			}
@@ -33,4 +44,12 @@ func TestWitnesses(t *testing.T) {
 		}
 		return ""
 	})
+}
+
+// slowCtx is a context whose Done() returns after a short pause.
+type slowCtx struct{ context.Context }
+
+func (c slowCtx) Done() <-chan struct{} {
+	time.Sleep(3 * time.Millisecond)
+	return c.Context.Done()
 }
